@@ -265,6 +265,11 @@ func createObjectMergePatch(originalJSON, modifiedJSON []byte) ([]byte, error) {
 		return nil, ErrBadJSONDoc
 	}
 
+	// null decodes without an error, into no map at all: it is not an object
+	if originalDoc == nil || modifiedDoc == nil {
+		return nil, ErrBadJSONDoc
+	}
+
 	dest, err := getDiff(originalDoc, modifiedDoc)
 	if err != nil {
 		return nil, err
